@@ -207,6 +207,56 @@ def mpo_case(ctx, idx, rng):
     orth_post(ctx, old, op, nrm, mode, True)
 
 
+def sequence_case(ctx, idx, rng):
+    """The same object orthonormalised repeatedly with edits in between (tensor replaced, scaled in place, compressed, evolved): every call
+    must again return the norm of the object as it is at that moment."""
+    is_mpo = bool(idx % 5 == 4)
+    L = int(rng.integers(1, 6))
+    d = int(rng.choice([2, 2, 3]))
+    if is_mpo:
+        L = min(L, 3)
+    qd = _qd(rng, d, str(rng.choice(['zero', 'unsorted', 'sorted'])))
+    obj = gen.rand_mpo(rng, qd, L, Dmax=3) if is_mpo else gen.rand_mps(rng, qd, L, str(rng.choice(['random', 'max'])), Dmax=4, kind=str(rng.choice(['complex', 'real'])))
+    hist = []
+    nsteps = int(rng.integers(2, 6))
+    for step in range(nsteps):
+        op = str(rng.choice(['orth-left', 'orth-right', 'replace-tensor', 'scale-inplace', 'compress', 'add-self']))
+        if op in ('compress', 'add-self') and is_mpo:
+            op = 'scale-inplace'
+        if op.startswith('orth'):
+            mode = op.split('-')[1]
+            old = snapshot(obj, is_mpo)
+            ctx.cur_info = {'history': hist + [op], 'qd': old['qd'], 'qD': old['qD'], 'A': old['A'], 'mode': mode}
+            nrm = obj.orthonormalize(mode)
+            orth_post(ctx, old, obj, nrm, mode, is_mpo)
+            if ctx._case_failed:
+                break
+        elif op == 'replace-tensor':
+            i = int(rng.integers(0, L))
+            sh = obj.A[i].shape
+            new = gen.entries(rng, sh, 'complex')
+            if is_mpo:
+                mask = np.add.outer(np.add.outer(np.add.outer(obj.qd, -obj.qd), obj.qD[i]), -obj.qD[i + 1])
+            else:
+                mask = np.add.outer(np.add.outer(obj.qd, obj.qD[i]), -obj.qD[i + 1])
+            obj.A[i] = np.where(mask == 0, new, 0)
+        elif op == 'scale-inplace':
+            i = int(rng.integers(0, L))
+            obj.A[i] = obj.A[i] * complex(rng.choice([2.0, -0.5, 1j, 3.0]))
+        elif op == 'compress':
+            if np.linalg.norm(refs.dense_state(obj.A)) > 1e-8:
+                obj.compress(float(rng.choice([0, 1e-3])), str(rng.choice(['left', 'right'])))
+            else:
+                continue
+        elif op == 'add-self':
+            if sum(obj.bond_dims) < 20:
+                obj = obj + obj
+            else:
+                continue
+        hist.append(op)
+    ctx.case(('sequence', 'mpo' if is_mpo else 'mps', f'L{L}') + tuple(hist), nontrivial=len([h for h in hist if h.startswith('orth')]) >= 1, sample={'history': hist, 'L': L, 'd': d})
+
+
 def insitu_case(ctx, idx, rng):
     """orthonormalize as called by compress, TDVP and DMRG on their own data."""
     def around(orig, self, mode='left'):
@@ -242,13 +292,15 @@ SPEC = {
              'rank-deficient thin products} x charge layouts {zero, sorted, unsorted, repeated, encoded pairs} x entries {complex, real, integer '
              '(incl. the scalar-fill constructor), float32} x both modes, followed by a second call on the canonical object; MPO: L 1..4, d 1..3, '
              'random / built-in model / built-in model with vanishing parameters (exactly sparse tensors) / over-complete / disjoint; both classes '
-             'additionally with exact structure on inner bonds: dead bond indices, exactly duplicated (dependent) bond slices, random exact zeros. In situ: orthonormalize as called from compress, TDVP, DMRG. '
+             'additionally with exact structure on inner bonds: dead bond indices, exactly duplicated (dependent) bond slices, random exact zeros. Sequences: the same object orthonormalised repeatedly with edits in between (tensor replaced, scaled, compressed, added to itself). '
+             'In situ: orthonormalize as called from compress, TDVP, DMRG. '
              'Non-trivial = non-zero object; distinct = (class, L, d, profile, layout, entry kind, mode).'),
     'deciding': ['mps.factor-equals-norm', 'mps.factor-times-new-equals-old', 'mps.site-isometries', 'mps.unit-norm-after', 'mps.bond-dims-bounded',
                  'mpo.factor-equals-norm', 'mpo.factor-times-new-equals-old', 'mpo.site-isometries', 'mps.factor-nonnegative', 'mpo.factor-nonnegative'],
     'workloads': [
         Workload('mps', mps_case, quick=2400, thorough=400000),
         Workload('mpo', mpo_case, quick=1000, thorough=150000),
+        Workload('sequence', sequence_case, quick=600, thorough=60000),
         Workload('insitu', insitu_case, quick=80, thorough=10000),
     ],
     'shards': {'quick': 1, 'thorough': 16},
